@@ -2,8 +2,8 @@
    `negotiate c s` is the untampered run of a client configuration against a server
    configuration in Model/C03_Negotiate.v (tables regenerated from /repo on every run). *)
 From Coq Require Import ZArith List Bool.
-From TV Require Import Base.Prelude Gen.C03Tables Model.C03_Negotiate Gen.C03Defaults
-                       Proofs.C03_Negotiate Proofs.C03_Witness.
+From TV Require Import Base.Prelude Gen.C03Tables Model.C03_Negotiate Model.C03_Resume Gen.C03Defaults
+                       Proofs.C03_Negotiate Proofs.C03_Resume Proofs.C03_Witness.
 Import ListNotations.
 Open Scope Z_scope.
 
@@ -112,6 +112,38 @@ Theorem sig_scheme_checked_by_client : forall c s o sg sc, negotiate c s = Ok o 
   vw_version (oc_server o) <= 3 -> fl_sig (oc_flight o) = Some sg -> fl_cert (oc_flight o) = Some sc ->
   In sg (sig_hashes_to_list (cl_set c) false (Some sc) 3).
 Proof. exact sig_checked_by_client. Qed.
+
+(* TLS 1.3 PSK key-exchange mode (0 = psk_dhe_ke, 1 = psk_ke; psk_ke iff no key share group) lies inside
+   the psk_modes of both sides *)
+Theorem psk_mode_within_both : forall c s o i, negotiate c s = Ok o -> fl_psk (oc_flight o) = Some i ->
+  In (psk_mode_of (oc_flight o)) (st_psk_modes (cl_set c)) /\
+  In (psk_mode_of (oc_flight o)) (st_psk_modes (sv_set s)).
+Proof. exact psk_mode_within_both. Qed.
+
+(* ---- resumed connections (abbreviated handshake of TLS <= 1.2; TLS 1.3 resumption is `negotiate` with the
+   ticket as PSK 999 and is covered by the theorems above) -------------------------------------------------
+   FULL STATEMENT: after negotiate c s = Ok o, a second connection between any configurations c2 s2 that
+   offers the stored session (by ID or by ticket) and completes, resumed or not, leaves both ends with
+   identical version, suite, EtM, EMS, NPN, SNI, record limits, secret inputs and ALPN.  Proved for every
+   field but ALPN; for ALPN the statement is false of the faithful model (the client keeps the stored
+   session's protocol when the resumed ServerHello carries none): refuted below, proved when the original
+   connection negotiated no ALPN. *)
+Theorem resumed_views_agree_partial : forall t c s o c2 s2 r, negotiate c s = Ok o ->
+  resume_legacy t c2 s2 (oc_client o) (oc_server o) = Ok r ->
+  views_agree_but_alpn (rs_client r) (rs_server r) /\
+  (vw_alpn (rs_client r) = vw_alpn (rs_server r) \/
+   (rs_resumed r = true /\ vw_alpn (rs_server r) = None /\ vw_alpn (rs_client r) = vw_alpn (oc_client o))).
+Proof. exact resumed_after_negotiate. Qed.
+
+Theorem resumed_alpn_agrees_partial : forall t c s o c2 s2 r, negotiate c s = Ok o ->
+  resume_legacy t c2 s2 (oc_client o) (oc_server o) = Ok r ->
+  vw_alpn (oc_client o) = None -> vw_alpn (rs_client r) = vw_alpn (rs_server r).
+Proof. exact resumed_alpn_agrees. Qed.
+
+Theorem resumed_views_agree_refuted_alpn :
+  exists t c s o c2 s2 r, negotiate c s = Ok o /\ resume_legacy t c2 s2 (oc_client o) (oc_server o) = Ok r /\
+                          vw_alpn (rs_client r) <> vw_alpn (rs_server r).
+Proof. exact resumed_views_agree_refuted_alpn_pf. Qed.
 
 (* ---- "otherwise the handshake fails with an alert": false of the faithful model -------------- *)
 Theorem failure_is_alert_refuted : refuted_unless fix_sigalg_assert
